@@ -20,6 +20,8 @@ import (
 	"encoding/json"
 	"fmt"
 	"math/rand"
+	"net"
+	"os"
 	"sort"
 	"strconv"
 	"strings"
@@ -78,6 +80,7 @@ type RecStats struct {
 	NonEmpty     int            `json:"queries_with_matches"`
 	Matches      int            `json:"matches_total"`
 	Skipped      map[string]int `json:"skipped"`
+	Hung         []string       `json:"commands_never_answered"`
 	MaxLive      int            `json:"max_objects_alive"`
 	FillerBursts int            `json:"filler_bursts"`
 	FillerOps    int            `json:"filler_ops"`
@@ -100,6 +103,7 @@ func (s *RecStats) Add(o *RecStats) {
 	s.Matches += o.Matches
 	s.FillerBursts += o.FillerBursts
 	s.FillerOps += o.FillerOps
+	s.Hung = append(s.Hung, o.Hung...)
 	if o.MaxLive > s.MaxLive {
 		s.MaxLive = o.MaxLive
 	}
@@ -109,6 +113,19 @@ func (s *RecStats) Add(o *RecStats) {
 	addMap(s.ByCmd, o.ByCmd)
 	addMap(s.Skipped, o.Skipped)
 	addMap(s.ByRegion, o.ByRegion)
+}
+
+// hungError: a query or TEST command that the server did not answer within queryPatience.
+type hungError struct{ cmd string }
+
+func (e *hungError) Error() string { return "no reply to " + e.cmd }
+
+// queryPatience bounds the wait for the reply to ONE search / TEST command (they take milliseconds).
+const queryPatience = 45 * time.Second
+
+func isTimeout(err error) bool {
+	ne, ok := err.(net.Error)
+	return ok && ne.Timeout()
 }
 
 // RecOptions of one run.
@@ -168,6 +185,12 @@ func RecordRun(o RecOptions, qbase *int) ([]Event, []QueryInfo, *RecStats, error
 	}
 	for n := 0; n < o.Ops; n++ {
 		if err := r.step(n); err != nil {
+			if he, ok := err.(*hungError); ok {
+				// the server computes forever on this command (it still holds its lock): the run ends here,
+				// what was recorded before stands; the command is reported, it is not part of the trace
+				r.st.Hung = append(r.st.Hung, fmt.Sprintf("run %d (%s) op %d: %s", o.Run, reg.Name, n, he.cmd))
+				break
+			}
 			return nil, nil, nil, fmt.Errorf("run %d (%s) op %d: %v", o.Run, reg.Name, n, err)
 		}
 	}
@@ -176,7 +199,18 @@ func RecordRun(o RecOptions, qbase *int) ([]Event, []QueryInfo, *RecStats, error
 
 func (r *recorder) key() string { return r.keys[r.cur-1] }
 
+// cmdLog (debugging aid): when VERIF_C02_CMDLOG names a file, every object-changing command is appended to it.
+func cmdLog(args []string) {
+	if p := os.Getenv("VERIF_C02_CMDLOG"); p != "" {
+		if f, err := os.OpenFile(p, os.O_APPEND|os.O_CREATE|os.O_WRONLY, 0o644); err == nil {
+			f.WriteString(strings.Join(args, "|") + "\n")
+			f.Close()
+		}
+	}
+}
+
 func (r *recorder) do(args ...string) (t38.Value, error) {
+	cmdLog(args)
 	v, err := r.c.Do(args...)
 	if err != nil {
 		return v, err
@@ -311,6 +345,11 @@ func (r *recorder) burst() error {
 		cmds = append(cmds, []string{"DEL", r.key(), idName(id)})
 		gone = append(gone, id)
 	}
+	if os.Getenv("VERIF_C02_CMDLOG") != "" {
+		for _, c := range cmds {
+			cmdLog(c)
+		}
+	}
 	vs, err := pipeline(r.c, cmds)
 	if err != nil {
 		return err
@@ -349,6 +388,9 @@ func (r *recorder) testArea(area []string, clips [][]string) (test []string, ok 
 		args = append(args, c...)
 		v, err := r.c.Do(args...)
 		if err != nil {
+			if isTimeout(err) {
+				return nil, false, &hungError{strings.Join(args, " ")}
+			}
 			return nil, false, err
 		}
 		r.st.Tests++
@@ -379,6 +421,8 @@ func (r *recorder) refsList() [][2]string {
 }
 
 func (r *recorder) query() error {
+	r.c.Timeout = queryPatience
+	defer func() { r.c.Timeout = 3 * time.Minute }()
 	area, kind := r.g.Area(r.refsList())
 	if area[0] == "GET" {
 		// the area is whatever the referenced object is
@@ -391,7 +435,10 @@ func (r *recorder) query() error {
 	}
 	var clips [][]string
 	clipName := ""
-	if r.rng.Intn(4) == 0 {
+	// (a stored line is not clipped: WITHIN of a line against a partial copy of itself never returns - a loop in the
+	// geometry library's line-in-line test, `TEST OBJECT line WITHIN OBJECT prefix-of-that-line`; it would stall the driver)
+	selfLine := area[0] == "GET" && (strings.Contains(kind, "Line") || strings.Contains(kind, "Collection"))
+	if r.rng.Intn(4) == 0 && !selfLine {
 		n := 1 + r.rng.Intn(4)/3
 		reuse, large := r.g.Reuse, r.g.Large
 		r.g.Reuse, r.g.Large = 0.8, true
@@ -429,6 +476,9 @@ func (r *recorder) query() error {
 	}
 	v, err := r.c.Do(search...)
 	if err != nil {
+		if isTimeout(err) {
+			return &hungError{strings.Join(search, " ")}
+		}
 		return err
 	}
 	if v.Kind == '-' {
@@ -447,6 +497,9 @@ func (r *recorder) query() error {
 	}
 	vs, err := pipeline(r.c, cmds)
 	if err != nil {
+		if isTimeout(err) {
+			return &hungError{fmt.Sprintf("one of %d commands like %s", len(cmds), strings.Join(cmds[0], " "))}
+		}
 		return err
 	}
 	r.st.Tests += len(cmds)
